@@ -92,7 +92,9 @@ def histories_for(pid, tier):
     elif pid == 'C17':
         for k in ('map', 'set'):
             for n in range(1, nmax + 1):
-                out.append((k, ins(n) + ['pred_read']))
+                out.append((k, ins(n) + ['pred_insert_read']))
+                if n <= 2 and deep:
+                    out.append((k, ins(n) + ['pred_insert_read', 'pred_insert_read']))
     elif pid == 'C12':
         for k in ('map', 'set'):
             for n in range(1, nmax):
